@@ -110,6 +110,8 @@ func genDomain(g *vh.Gen) string {
 	switch {
 	case g.Chance(0.06):
 		d += "."
+	case g.Chance(0.02):
+		d += ".."
 	case g.Chance(0.03):
 		d = "." + d
 	case g.Chance(0.03):
